@@ -17,7 +17,19 @@ scripted base draws (`scripted_rng`), from outside:
   outside, own density positive for births) is applied to the real output over
   grids of positions (both boundaries, cell edges, the poles), scales
   (1e-12..1e+12 x width), base draws (grid + extreme quantiles), 1..3
-  parameters, all radec/degs conventions and adaptive variants at adapted scales.
+  parameters, all radec/degs conventions and adaptive variants at adapted scales
+  (`all_cases`), and to `proposed_position` along runs of real chains fed with
+  real random base draws (`random_runs`).
+
+Keys of the failing inputs (one per defect, stable across runs):
+  discrete-zero-draw-proposes-current    a normal draw of exactly 0.0 -> current integer (non-successive)
+  bounded-eigenvector-corner-stall       start at a corner/edge: no proposal within the draw budget
+  solid-angle-pole-start                 start at theta = 0 (dec = -pi/2): 0/0 in _rotmat -> NaN azimuth
+  vmf-inverse-cdf-log-nonpositive        exp(k) - k*cdf/(2 pi norm) cancels to <= 0 -> NaN
+  vmf-inverse-cdf-arccos-out-of-range    log(..)/k rounds outside [-1, 1] -> NaN
+  log_normal_birth-zero-density          sigma/mu < 1.5e-8: std_log rounds to 0, own logpdf NaN
+  <group>-out-of-bounds / -nan / -non-integer / -proposes-current / -no-refusal-outside /
+  -refuses-inside / -raises, ang-out-of-range, solid-angle-out-of-range, <birth>-zero-density
 """
 import contextlib
 import itertools
@@ -1189,7 +1201,7 @@ def random_runs(seed, tier, stats=None):
     Each proposed point is judged by the same oracle.  Returns findings [(key, text, payload)]."""
     stats = stats if stats is not None else {}
     rng = random.Random(seed * 7919 + 3)
-    nsteps = 150 if tier == 'quick' else 2000
+    nsteps = 150 if tier == 'quick' else 1000
     findings = {}
     nprop = 0
     for fam, g in GROUP_OF.items():
@@ -1229,7 +1241,7 @@ def random_runs(seed, tier, stats=None):
                 # base draws from a real seeded generator, through the stand-in so that a rejection
                 # loop that stops landing (adapted scale far beyond the box: property C14) ends the
                 # run instead of hanging it
-                feed = Script(tail=real_tail(rng.randrange(1, 10 ** 6)), budget=400 * nsteps)
+                feed = Script(tail=real_tail(rng.randrange(1, 10 ** 6)), budget=150 * nsteps)
                 for it in range(nsteps):
                     cur = {p: ch.current_position[p] for p in names}
                     cur = {p: (int(v) if g in ('bd', 'nd') else float(v)) for p, v in cur.items()}
